@@ -1,0 +1,24 @@
+//go:build verif
+// +build verif
+
+package mod_header
+
+// Hook for the out-of-tree verification harness of property C49 (build tag verif).  Add-only.
+
+import (
+	"github.com/bfenetworks/bfe/bfe_basic"
+)
+
+// VerifC49Do checks the action list with the real ActionFileListCheck, converts it with the real actionsConvert and
+// runs the real HeaderActionsDo on the request (headerType 0) or response (1) headers of req.
+func VerifC49Do(req *bfe_basic.Request, headerType int, conf ActionFileList) error {
+	if err := ActionFileListCheck(&conf); err != nil {
+		return err
+	}
+	actions, err := actionsConvert(conf)
+	if err != nil {
+		return err
+	}
+	HeaderActionsDo(req, headerType, actions)
+	return nil
+}
